@@ -10,7 +10,7 @@ for ml, tier in ((32, "quick"), (0, "quick"), (33, "quick"), (301, "quick"), (64
             continue
         if tier == "thorough" and mode in (1,):
             continue
-        QUERIES.append(Query("sign_len%d_mode%d" % (ml, mode), S, "harness_sign", defs=["MSGLEN=%d" % ml, "MODE=%d" % mode], unwind=max(66, ml + 140), timeout=1200, tier=tier,
+        QUERIES.append(Query("sign_len%d_mode%d" % (ml, mode), S, "harness_sign", defs=["MSGLEN=%d" % ml, "MODE=%d" % mode], unwind=max(66, ml + 140), timeout=(2400 if ml > 500 else 1200), tier=tier, mem_gb=(16 if ml > 500 else 3),
                              desc="BIP-340 Sign structure, entry mode %d (0 sign32, 1 sign_custom(NULL), 2 sign_custom(default fn/ndata), 3 custom nonce fn): nonce derivation layout, aux NULL == zero aux, negations, failure masking; %d-byte messages" % (mode, ml),
                              bounds="message length %d (class), contents symbolic" % ml))
 for q in QUERIES:
